@@ -282,9 +282,108 @@ void vf_harness()
                            "expect": r"assertion"}])
 
 
+def unit_get_coordinate():
+    """Grid::getCoordinate (behind DbGrid::getCoordinate): the same chain as indicesToCoordinate, on the indices of the rank"""
+    pre = BOOL + """
+#define NDMAX 3
+#define messerr(...) ((void)0)
+int _nDim; int _nx[NDMAX]; int _iwork0[NDMAX]; double _dx[NDMAX], _x0[NDMAX], _work1[NDMAX], _work2[NDMAX];
+int g_rot_calls, g_rot_dir; double g_rot_in[NDMAX];
+static void Rotation_rotateDirect(const double* in, double* out) { g_rot_calls++; g_rot_dir = 1; for (int d = 0; d < NDMAX; d++) { g_rot_in[d] = in[d]; out[d] = W_rot_out[d]; } }
+double __CPROVER_uninterpreted_rotmat(int, int);
+static double Rotation_getMatrixDirect(int i, int j) { return __CPROVER_uninterpreted_rotmat(i, j); }
+/* contract of Grid::rankToIndice (unit C16.rankToIndice): the indices of the rank */
+int g_r2i_rank;
+static void Grid_rankToIndice(int rank, int* indices, bool minusOne) { g_r2i_rank = rank; for (int d = 0; d < NDMAX; d++) indices[d] = W_ind[d]; }
+"""
+    f = Fn("Grid::getCoordinate", GR, r"^double Grid::getCoordinate\(int rank, int idim0, bool flag_rotate\) const\s*$", csig="double Grid_getCoordinate(int rank, int idim0, bool flag_rotate)",
+           rewrites=[(r"rankToIndice\(rank, _iwork0\);", "Grid_rankToIndice(rank, _iwork0, false);", 1),
+                     (r"_rotation\.rotateDirect\(_work1,\s*_work2\)", "Rotation_rotateDirect(_work1, _work2)", "opt"),
+                     (r"_rotation\.getMatrixDirect\(", "Rotation_getMatrixDirect(", "opt"), (r"_rotation\.getMatrixInverse\(", "Rotation_getMatrixDirect(", "opt")])
+    h = """
+void vf_harness(void)
+{
+  vf_havoc_inputs();
+  _nDim = W_ndim; __CPROVER_assume(1 <= _nDim && _nDim <= NDMAX && 0 <= W_idim && W_idim < _nDim);
+  for (int d = 0; d < NDMAX; d++) { _dx[d] = W_dx[d]; _x0[d] = W_x0[d]; }
+  g_rot_calls = 0; g_r2i_rank = -1;
+  double c = Grid_getCoordinate(W_rank, W_idim, W_flag);
+  __CPROVER_assert(g_r2i_rank == W_rank, "the indices are those of the requested rank");
+  if (W_flag) {
+    __CPROVER_assert(g_rot_calls == 1 && g_rot_dir == 1, "a rotated grid applies the DIRECT rotation exactly once (as indicesToCoordinate does)");
+    for (int d = 0; d < NDMAX; d++) if (d < _nDim) __CPROVER_assert(g_rot_in[d] == (double) W_ind[d] * _dx[d] || g_rot_in[d] != g_rot_in[d], "the rotation is applied to index * mesh");
+    __CPROVER_assert(c == W_rot_out[W_idim] + _x0[W_idim] || c != c, "the origin is added after the rotation, for the requested dimension");
+  } else {
+    __CPROVER_assert(g_rot_calls == 0, "no rotation when not requested");
+    __CPROVER_assert(c == (double) W_ind[W_idim] * _dx[W_idim] + _x0[W_idim] || c != c, "coordinate = index * mesh + origin");
+  }
+  VF_REACH();
+}
+"""
+    return Unit("C16.getCoordinate", [f], prelude=pre, harness=h, pre_inputs=BOOL,
+                inputs=[("int", "W_ndim"), ("int", "W_idim"), ("int", "W_rank"), ("bool", "W_flag"), ("int", "W_ind", "3"), ("double", "W_dx", "3"), ("double", "W_x0", "3"), ("double", "W_rot_out", "3")],
+                unwind=5, checks=["--bounds-check", "--pointer-check"], backends=("minisat", "cadical", "cvc5"), timeout=600,
+                bounded="space dimension <= 3 (unwinding assertions)",
+                claim=("Grid::getCoordinate (what DbGrid::getCoordinate reports): the coordinate of a node in one dimension is obtained by the same chain as "
+                       "indicesToCoordinate - indices of the rank, times the mesh, DIRECT rotation applied once to the whole vector, origin added - so the grid data base "
+                       "reports the coordinates of its geometry"),
+                assumptions=["Rotation::rotateDirect is a ghost recording its call (its own pairing: unit C16.Rotation.pairing); rankToIndice enters through a stub returning arbitrary indices"],
+                canaries=[{"fn": "Grid::getCoordinate", "rx": r"_work1\[idim\] = _iwork0\[idim\] \* _dx\[idim\];", "rp": "_work1[idim] = _iwork0[idim] * _dx[idim0];", "expect": r"assertion"}])
+
+
+def unit_dilate():
+    """derived grid: dilation / erosion by nshift cells on each side"""
+    pre = BOOL + """
+#define NDMAX 3
+int _nDim; int _nx[NDMAX]; int _iwork0[NDMAX]; double _dx[NDMAX], _x0[NDMAX], _work1[NDMAX];
+#define getNX(i) (_nx[i])
+#define getDX(i) (_dx[i])
+/* ghost for the indices -> coordinates conversion (unit C16.coordinate_conversions.order): records its arguments, the result lands in 'coor' */
+int g_i2c_calls, g_i2c_ind[NDMAX]; bool g_i2c_percent_empty; double* g_i2c_out;
+static void VF_i2c(const int* indice, double* coor, bool percent_empty)
+{ g_i2c_calls++; g_i2c_percent_empty = percent_empty; g_i2c_out = coor; for (int d = 0; d < NDMAX; d++) { g_i2c_ind[d] = indice[d]; coor[d] = W_out[d]; } }
+"""
+    f = Fn("Grid::dilate", GR, r"^void Grid::dilate\(int mode,[^{]*?VectorDouble& x0\) const\s*$", csig="void Grid_dilate(int mode, const int* nshift, int* nx, double* dx, double* x0)",
+           rewrites=[(r"indicesToCoordinateInPlace\(_iwork0, _work1\);", "VF_i2c(_iwork0, _work1, true);", "opt"),
+                     # the two-argument form: the second argument is the vector of CELL FRACTIONS (percent), the result goes to the scratch vector _work1
+                     (r"indicesToCoordinate\(_iwork0, (\w+)\);", r"VF_i2c(_iwork0, _work1, false);", "opt"),
+                     (r"indicesToCoordinate\(_iwork0\);", "VF_i2c(_iwork0, _work1, true);", "opt")])
+    h = """
+void vf_harness(void)
+{
+  vf_havoc_inputs();
+  _nDim = W_ndim; __CPROVER_assume(1 <= _nDim && _nDim <= NDMAX && -3 <= W_mode && W_mode <= 3);
+  for (int d = 0; d < NDMAX; d++) { _nx[d] = W_nx[d]; _dx[d] = W_dx[d]; __CPROVER_assume(1 <= _nx[d] && _nx[d] <= 100000 && 0 <= W_nshift[d] && W_nshift[d] <= 1000); }
+  int nx[NDMAX]; double dx[NDMAX], x0[NDMAX]; for (int d = 0; d < NDMAX; d++) { nx[d] = -7; dx[d] = -7.; x0[d] = -7.; }
+  g_i2c_calls = 0;
+  Grid_dilate(W_mode, W_nshift, nx, dx, x0);
+  bool feasible = (W_mode == 1 || W_mode == -1);
+  for (int d = 0; d < NDMAX; d++) if (d < _nDim && _nx[d] + 2 * W_mode * W_nshift[d] <= 0) feasible = 0;
+  if (feasible) {
+    for (int d = 0; d < NDMAX; d++) if (d < _nDim) {
+      __CPROVER_assert(nx[d] == _nx[d] + 2 * W_mode * W_nshift[d], "nshift cells are added (removed) on each side");
+      __CPROVER_assert(dx[d] == _dx[d] || dx[d] != dx[d], "the mesh is unchanged");
+      __CPROVER_assert(g_i2c_ind[d] == -W_mode * W_nshift[d], "the new origin is the node of indices -mode * nshift of the original grid");
+      __CPROVER_assert(x0[d] == W_out[d] || x0[d] != x0[d], "the new origin is the coordinate returned for that node");
+    }
+    __CPROVER_assert(g_i2c_calls == 1 && g_i2c_percent_empty, "one conversion, with NO cell fraction added to the indices");
+  }
+  VF_REACH();
+}
+"""
+    return Unit("C16.dilate", [f], prelude=pre, harness=h, pre_inputs=BOOL,
+                inputs=[("int", "W_ndim"), ("int", "W_mode"), ("int", "W_nx", "3"), ("int", "W_nshift", "3"), ("double", "W_dx", "3"), ("double", "W_out", "3")],
+                unwind=5, checks=["--bounds-check", "--pointer-check", "--signed-overflow-check"], backends=("minisat", "cadical"), timeout=600,
+                bounded="space dimension <= 3 (unwinding assertions)",
+                claim=("Grid::dilate: the derived grid has nshift cells more (less) on each side, the same mesh, and its origin is the coordinate of the node of indices "
+                       "-mode * nshift of the original grid, converted once and with no cell fraction"),
+                assumptions=["the indices -> coordinates conversion is a ghost recording its arguments (its own contract: unit C16.coordinate_conversions.order)"],
+                canaries=[{"fn": "Grid::dilate", "rx": r"_iwork0\[idim\] = -mode \* nshift\[idim\];", "rp": "_iwork0[idim] = mode * nshift[idim];", "expect": r"assertion"}])
+
+
 def units(tier):
-    nxmax = 12 if tier == "quick" else 64
-    return [unit_i2r(nxmax), unit_r2i(nxmax), unit_roundtrip(nxmax), unit_coord_order(), unit_rotation()]
+    nxmax = 12 if tier == "quick" else 20
+    return [unit_i2r(nxmax), unit_r2i(nxmax), unit_roundtrip(nxmax), unit_coord_order(), unit_rotation(), unit_get_coordinate(), unit_dilate()]
 
 
 META = {
